@@ -18,7 +18,8 @@ ORACLES = {
 }
 JUNCTIONS = ["0", "1", "255", "256", "65535", "65536", "4294967295", "4294967296", str(2**64 - 1), str(2**64), str(2**128 - 1), str(2**128),
              str(2**256 - 1), str(2**256), str(2**300), "007", "00000000000000000000000000000000000001", "١٢٣", "²", "½", "一", "Alice", "alice", "a" * 30,
-             "a" * 31, "a" * 32, "b" * 33, "é" * 15, "é" * 16, "😀" * 8, "stash", "polkadot", " ", "a b", "0x10", "-1", "1e3", "x" * 64, "\n", "1\n"]
+             "a" * 31, "a" * 32, "b" * 33, "é" * 15, "é" * 16, "😀" * 8, "stash", "polkadot", " ", "a b", "0x10", "-1", "1e3", "x" * 64, "\n", "1\n",
+             "a ", " a", "7 ", " 7", "a\t", "a\u3000", "\u00a0b", "a" * 31 + " ", " " + "a" * 31, "12\u2003"]
 
 
 def rand_path(rng):
@@ -69,7 +70,8 @@ def gen(rng, tier):
     for j in JUNCTIONS:
         for pre in ("/", "//"):
             yield Case("subcc", [tx(pre + j)], "chaincode")
-    for s in ["", "/", "//", "a", "/a/", "/a//b", "///a", "/a///b", "//a/b//c", "/ /", "/a/ /b", "//", "/a//", "a/b", "/a\n", "/😀//é"]:
+    for s in ["", "/", "//", "a", "/a/", "/a//b", "///a", "/a///b", "//a/b//c", "/ /", "/a/ /b", "//", "/a//", "a/b", "/a\n", "/😀//é",
+              " /a", "/a ", " //hard", "//hard/soft ", "\t/a", "/a\u3000", "\u00a0/a", "/ ", "// ", " ", "/a /b", "/7 ", "/a\r\n"]:
         yield Case("subpath", [tx(s)], "parse")
     for _ in range(300 if tier == "quick" else 20000):
         yield Case("subpath", [tx(rand_path(rng) + rng.choice(["", "", "", "/", "//", "x"]))], "parse")
@@ -121,6 +123,29 @@ def relations(rng, tier, rpt):
         except Exception as ex:  # noqa
             if exc_kind(ex) != "Key":
                 rep("hard junction on public-only raises the wrong error", seed.hex(), exc_kind(ex), "Key")
+        # conversion after use: derive children, convert the same object to public-only, ask again
+        hj, sj = "//" + rng.choice(good), "/" + rng.choice(good)
+        ctx = Substrate.FromSeed(seed, c).DerivePath("".join(p))
+        want_soft = ctx.ChildKey(sj).PublicKey().RawCompressed().ToBytes()
+        ctx.ChildKey(hj)
+        before_path = ctx.Path().ToStr()
+        ctx.ConvertToPublic()
+        try:
+            again = ctx.ChildKey(sj)
+            if not again.IsPublicOnly():
+                rep("after ConvertToPublic a soft child (derived before the conversion) still holds a private key", "%s %r %s" % (seed.hex(), p, sj), "private", "public-only")
+            elif again.PublicKey().RawCompressed().ToBytes() != want_soft:
+                rep("after ConvertToPublic the soft child differs from the public half of the private child", "%s %r %s" % (seed.hex(), p, sj), "differs", "equal")
+        except Exception as ex:  # noqa
+            rep("after ConvertToPublic soft derivation raises", "%s %r %s" % (seed.hex(), p, sj), type(ex).__name__, "public child")
+        try:
+            ctx.ChildKey(hj)
+            rep("after ConvertToPublic a hard junction derived before the conversion is still handed out", "%s %r %s" % (seed.hex(), p, hj), "ok", "SubstrateKeyError")
+        except Exception as ex:  # noqa
+            if exc_kind(ex) != "Key":
+                rep("hard junction on a converted object raises the wrong error", seed.hex(), exc_kind(ex), "Key")
+        if ctx.Path().ToStr() != before_path or ctx.Path().ToStr() != "".join(p):
+            rep("deriving children changed the parent's path", "%s %r" % (seed.hex(), p), ctx.Path().ToStr(), "".join(p))
         s = "".join(p + q)
         if SubstratePathParser.Parse(s).ToStr() != s:
             rep("print(parse(s)) != s", s, SubstratePathParser.Parse(s).ToStr(), s)
